@@ -21,7 +21,7 @@ def check_gate_replacement(gate: Gate, replacement_gates: Iterable[Gate]) -> Non
     for g in replacement_gates:
         replacement_gates_qubit_indices.update([q.index for q in g.get_qubit_operands()])
 
-    if set(gate_qubit_indices) != replacement_gates_qubit_indices:
+    if not replacement_gates_qubit_indices.issubset(gate_qubit_indices):
         msg = f"replacement for gate {gate.name} does not seem to operate on the right qubits"
         raise ValueError(msg)
 
